@@ -27,7 +27,7 @@ from vf.common import Ctx, Failure, Stats, drive, run_sharded, scratch_dir
 PROP = "C19"
 LEVEL = "exploration"
 RULE = (
-    "(1) Hypothesis path strings of 1-4 segments from a 34-segment pool over a planted tree, absolute and relative to 2 cwds, x 9 entry "
+    "(1) Hypothesis path strings of 1-4 segments from a 41-segment pool (incl. ~ and $HOME spellings with HOME set to the outside tree) over a planted tree, absolute and relative to 2 cwds, x 9 entry "
     "points (octave_write content/changes/normalize/corrections_only, octave_validate file_path, atomic_write_octave, CLI write / "
     "normalize -o / seal -o). Oracle: a path with a '..' component, a symlink component (os.path.islink on any prefix, computed by the "
     "harness) or a disallowed extension => error, no open/create/replace/unlink boundary at all in the trace, both trees unchanged; "
@@ -47,7 +47,9 @@ DOC = "===D===\nMETA:\n  TYPE::T\nK::v\n===END===\n"
 
 SEGMENTS = ["a.oct.md", "b.md", "c.octave", "v.1.oct.md", "exists.oct.md", "d", "d/e", "new_dir", ".", "..", "ln_in", "ln_out", "ln_file.oct.md",
             "ln_secret.oct.md", "dangling.oct.md", "dangling_dir", "self_ln", "x.txt", "y.oct.md.bak", "z.OCT.MD", "A.MD", "noext", ".md", ".oct.md", "w.md ",
-            "", "q.md/", "nul\x00.md", "L" * 300 + ".md", "secret.oct.md", "ünï.oct.md", "sp ace.md", "d/../a.md", "ln_in/../b.md"]
+            "", "q.md/", "nul\x00.md", "L" * 300 + ".md", "secret.oct.md", "ünï.oct.md", "sp ace.md", "d/../a.md", "ln_in/../b.md",
+            # shell-style spellings that a tool must take literally (HOME points at the outside tree while paths are checked)
+            "~", "~/secret.oct.md", "~/sub/exists.oct.md", "~/new.oct.md", "$HOME/secret.oct.md", "${HOME}/new.oct.md", "~root/x.oct.md"]
 
 
 def plant(base):
@@ -144,13 +146,19 @@ def check_path(case, base):
     dd, ln, bad = classify_path(pstr, cwd)
     must_refuse = dd or ln or bad
     old = os.getcwd()
+    old_home = os.environ.get("HOME")
     os.chdir(cwd)
+    os.environ["HOME"] = outside  # "~" and "$HOME" name the outside tree for anything that expands them
     before = fsx.snapshot(root, outside)
     fsx.STATE.trace = []
     try:
         status, text = call_entry(case["entry"], pstr, root)
     finally:
         os.chdir(old)
+        if old_home is None:
+            os.environ.pop("HOME", None)
+        else:
+            os.environ["HOME"] = old_home
     trace = list(fsx.STATE.trace)
     after = fsx.snapshot(root, outside)
     where = f"{case['entry']}({pstr!r}) cwd={'sandbox' if case['cwd'] == 0 else 'sandbox/d'} [dotdot={dd} symlink={ln} bad_ext={bad}]"
